@@ -4,6 +4,7 @@ pub mod c01;
 pub mod c02;
 pub mod c03;
 pub mod c05;
+pub mod c07;
 pub mod c08;
 pub mod c09;
 pub mod c11;
@@ -34,6 +35,7 @@ pub fn check(id: &str, tier: &str) -> i32 {
         "C04" => c03::check_c04(tier),
         "C05" => c05::check_c05(tier),
         "C18" => c05::check_c18(tier),
+        "C07" => c07::check(tier),
         "C08" => c08::check(tier),
         "C09" => c09::check(tier),
         "C11" => c11::check(tier),
